@@ -88,11 +88,12 @@ def spec_norm(
     if isinstance(spectra, Simulation.PowerSpectrum):
         p = spectra.index
         a = 10**spectra.lower_bound
-        b = 10**spectra.upper_bound
         mp = 1 - p
-        if mp == 0:
-            return 1.0 / np.log(b / a)
-        return mp / (b**mp - a**mp)
+        # b**mp - a**mp = a**mp * expm1(mp * ln(b / a)): no cancellation for narrow ranges or indices next to 1
+        w = (spectra.upper_bound - spectra.lower_bound) * np.log(10.0)
+        if mp * w == 0:
+            return 1.0 / (a**mp * w)
+        return mp / (a**mp * np.expm1(mp * w))
 
     return 1.0
 
@@ -108,11 +109,11 @@ def sum_spec_weights(
     if isinstance(spectra, Simulation.PowerSpectrum):
         p = spectra.index
         a = 10**spectra.lower_bound
-        b = 10**spectra.upper_bound
         mp = 1 - p
-        if mp == 0:
-            return np.log(b / a)
-        return (b**mp - a**mp) / mp
+        w = (spectra.upper_bound - spectra.lower_bound) * np.log(10.0)
+        if mp * w == 0:
+            return a**mp * w
+        return (a**mp * np.expm1(mp * w)) / mp
 
     return 1.0
 
